@@ -166,7 +166,14 @@ def nmea_items(draw):
 
 @st.composite
 def rtcm_items(draw):
-    kind = draw(st.sampled_from(["corpus", "corpus", "gen", "badcrc", "empty", "tiny", "big"]))
+    kind = draw(st.sampled_from(["corpus", "corpus", "gen", "badcrc", "empty", "tiny", "big", "carrier"]))
+    if kind == "carrier":
+        # opaque message type whose payload carries a complete frame of another protocol
+        inner = draw(st.one_of(st.sampled_from(corpus()["ubx"][:40]), st.sampled_from(corpus()["nmea"][:20])))
+        mtype = draw(st.sampled_from([4072, 4095, 1029]))
+        body = bytes([mtype >> 4, (mtype & 0xF) << 4]) + inner
+        if len(body) < 1024:
+            return item("rtcm", codec.rtcm_frame(body), "carrier")
     if kind == "corpus":
         return item("rtcm", draw(st.sampled_from(corpus()["rtcm"])), "good")
     if kind == "badcrc":
@@ -274,7 +281,18 @@ def garbage_streams(draw, max_items=8):
     n = draw(st.integers(0, max_items))
     out = []
     for _ in range(n):
-        k = draw(st.integers(0, 9))
+        k = draw(st.integers(0, 10))
+        if k == 10:
+            # a frame that carries another complete frame inside its payload, directly
+            # followed by a stray start byte
+            inner = draw(st.one_of(st.sampled_from(corpus()["ubx"][:40]), st.sampled_from(corpus()["nmea"][:20])))
+            if draw(st.booleans()):
+                body = bytes([4072 >> 4, (4072 & 0xF) << 4]) + inner
+                out.append(item("rtcm", codec.rtcm_frame(body[:1000]), "carrier"))
+            else:
+                out.append(item("ubx", codec.ubx_frame(b"\x04", b"\x02", b"echo " + inner), "carrier"))
+            out.append(item("frag", draw(st.sampled_from([b"\xb5\x00", b"$\x00", b"\xd3\xff", b"\xb5", b"$"])), "fragment"))
+            continue
         if k <= 2:
             out.append(draw(any_frame()))
         elif k <= 5:
